@@ -286,7 +286,8 @@ def closest_cases(tier):
           ([[2, 2], [3, 1], [5, 1]], 3, 2, 2),  # a fuller farther bucket below the target vs closer peers in higher buckets (old early exit)
           ([253, 255], 253, 2, 3),       # top of the table
           ([0, 255], None, 1, 2),        # key = local id
-          ([1, 2], 200, 1, 2)]           # target bucket empty and far from the populated ones
+          ([1, 2], 200, 1, 2),           # target bucket empty and far from the populated ones
+          ([[3, 1], [4, 1], [5, 1], [9, 1]], 3, 1, 2)]  # several buckets above the target: their order is not the distance order
     if tier != "quick":
         cs += [([2, 3, 5], 3, 2, 2), ([0, 3, 7], 3, 2, 3), ([0, 3, 4, 7], 3, 2, 4), ([2, 3, 5, 9], 3, 2, 3), ([0, 1, 2, 3], 0, 2, 5), ([100, 101, 102, 180], 101, 3, 6), ([5, 6, 7, 8], 255, 2, 5), ([0, 128, 255], 128, 3, 8)]
     return cs
